@@ -704,8 +704,14 @@ hwloc_disc_component_force_enable(struct hwloc_topology *topology,
   if (backend) {
     int err;
     backend->envvar_forced = envvar_forced;
-    if (topology->backends)
+    if (topology->backends) {
       hwloc_backends_disable_all(topology);
+      /* the phases excluded by the backends we just disabled (e.g. a previous
+       * set_xml() or set_synthetic()) were filtered-out of our phases at allocation,
+       * they do not apply anymore.
+       */
+      backend->phases = comp->phases;
+    }
     err = hwloc_backend_enable(backend);
 
     if (comp->phases == HWLOC_DISC_PHASE_GLOBAL) {
